@@ -4,11 +4,14 @@ usage: seed_run.py <pid> [tier]"""
 import json, os, subprocess, sys, time
 pid = sys.argv[1]
 tier = sys.argv[2] if len(sys.argv) > 2 else "quick"
+min_n = int(sys.argv[3]) if len(sys.argv) > 3 else 0
 root = "/verif/seeded"
 for d in sorted(os.listdir(root)):
     if not d.startswith(pid + "-"):
         continue
     n = d.split("-")[1]
+    if int(n) < min_n:
+        continue
     wt = "/tmp/seedwt_%s_%s" % (pid, n)
     # always a fresh worktree of the CURRENT /repo HEAD (fix commits may have landed since the seed was stored)
     subprocess.run(["git", "-C", "/repo", "worktree", "remove", "--force", wt], capture_output=True)
